@@ -212,11 +212,12 @@ def _xspec_eq_by_text():
 
 @fact("grp_lookup_ok", "bool", "false")
 def _grp_lookup_ok():
-    """Group lookup: an int indexes the member list, anything else scans it for the member that IS the key (gateway objects
+    """Group lookup: an int indexes the member list, anything else scans A SNAPSHOT of it (a concurrent _unregister cannot make the scan
+    skip a member) for the member that IS the key (gateway objects
     compare by identity: Gateway defines no __eq__) or whose id equals it; membership is lookup; iteration copies the list;
     Gateway.exit does nothing unless the gateway object is a member; _unregister removes that object"""
     g = [_src(n) for n in _body_nodoc(find("multi.py", "Group.__getitem__"))]
-    ok = g == ["if isinstance(key, int):\n    return self._gateways[key]", "for gw in self._gateways:\n    if gw == key or gw.id == key:\n        return gw", "raise KeyError(key)"]
+    ok = g == ["if isinstance(key, int):\n    return self._gateways[key]", "for gw in list(self._gateways):\n    if gw == key or gw.id == key:\n        return gw", "raise KeyError(key)"]
     c = [_src(n) for n in _body_nodoc(find("multi.py", "Group.__contains__"))]
     ok = ok and c == ["try:\n    self[key]\n    return True\nexcept KeyError:\n    return False"]
     ok = ok and [_src(n) for n in _body_nodoc(find("multi.py", "Group.__iter__"))] == ["return iter(list(self._gateways))"]
@@ -715,7 +716,7 @@ def _chan_close_shape_ok():
     t = [x for x in t if not x.startswith("'") and not x.startswith('"')]
     ok = len(body) == 3 and t[0].startswith("if self._executing:\n    raise OSError(") and isinstance(body[2], ast.If) and _src(body[2].test) == "not self._closed"
     inner = [_src(n) for n in _Strip().visit(__import__("copy").deepcopy(body[2])).body]
-    want = ["if not self._receiveclosed.is_set() or not self.gateway._channelfactory.finished:\n    put = self.gateway._send\n    if error is not None:\n        put(Message.CHANNEL_CLOSE_ERROR, self.id, dumps_internal(error))\n    else:\n        put(Message.CHANNEL_CLOSE, self.id)",
+    want = ["if not self._receiveclosed.is_set() or not self.gateway._channelfactory.finished:\n    put = self.gateway._send\n    try:\n        if error is not None:\n            put(Message.CHANNEL_CLOSE_ERROR, self.id, dumps_internal(error))\n        else:\n            put(Message.CHANNEL_CLOSE, self.id)\n    except OSError:",
             "if isinstance(error, RemoteError):\n    self._remoteerrors.append(error)", "self._closed = True", "self._receiveclosed.set()", "queue = self._items",
             "if queue is not None:\n    queue.put(ENDMARKER)", "self.gateway._channelfactory._no_longer_opened(self.id)"]
     ok = ok and inner == want and not body[2].orelse
@@ -725,6 +726,19 @@ def _chan_close_shape_ok():
     ok = ok and ic == ["return self._closed"]
     dl = _src(find("gateway_base.py", "Channel.__del__"))
     ok = ok and "elif self._receiveclosed.is_set() and self.gateway._channelfactory.finished:\n        pass" in dl and "msgcode = Message.CHANNEL_LAST_MESSAGE" in dl and "msgcode = Message.CHANNEL_CLOSE" in dl and "self.gateway._send(msgcode, self.id)" in dl
+    return "true" if ok else "false"
+
+
+@fact("chan_regular_close_is_not_eof", "bool", "false")
+def _chan_regular_close_is_not_eof():
+    """Channel._getremoteerror: a pending remote error first; otherwise None for a channel that was closed regularly (_closed) and the
+    connection's EOFError (gateway._error) only for a channel that the end of receiving closed"""
+    g = [_src(n) for n in _body_nodoc(find("gateway_base.py", "Channel._getremoteerror"))]
+    ok = g == ["try:\n    return self._remoteerrors.pop(0)\nexcept IndexError:\n    if self._closed:\n        return None\n    try:\n        return self.gateway._error\n    except AttributeError:\n        pass\n    return None"]
+    w = _src(find("gateway_base.py", "Channel.waitclose"))
+    ok = ok and "error = self._getremoteerror()\n    if error:\n        raise error" in w
+    r = _src(find("gateway_base.py", "Channel.receive"))
+    ok = ok and "raise self._getremoteerror() or EOFError()" in r
     return "true" if ok else "false"
 
 
